@@ -13,6 +13,7 @@ pub fn check(tier: Tier) -> Check {
         tier.pick(40, 600),
     )];
     Check {
+        also_rel: false,
         property: "C09",
         level: "model_checking",
         rule: "all sequences over {PUBLISH(QoS 2, id in {1,2}, DUP 0/1), PUBREL(id in {1,2}), an unrelated QoS 1 PUBLISH} against one subscribed stream; the model keeps the set of identifiers awaiting PUBREL; non-trivial = a re-delivery had to be suppressed".into(),
